@@ -49,7 +49,9 @@ RULE = ("header: 0-6 pragma lines from the pragma grammar (version/annotation of
         "streams valid / boundary (no rows, empty header, one column, empty fields everywhere) / defect (one "
         "invalid field, header a Strict writer refuses, rows out of the declared order, Lenient / default "
         "stringency) / adversarial (CR or LF inside a field or pragma value, column names the format cannot carry); "
-        "all three channels per case; non-trivial = the writer accepted everything and at least one record or one "
+        "history scenarios on 30% of the cases each: the output paths already hold an earlier MAF and the second write "
+        "goes to the same path (overwrite), cells rendered once with an earlier text and then edited in place by value "
+        "assignment or column replacement before the write (stale); all three channels per case; non-trivial = the writer accepted everything and at least one record or one "
         "pragma was written; distinct by hash of the case")
 ASSUMPTIONS = [
     "typed column classes (built-in layouts) are represented in the extracted run by an oracle table obtained from "
@@ -308,8 +310,37 @@ def generate(rng, n):
         elif stream == "adversarial":
             c = apply_adversarial(rng, c)
         c["stream"] = stream
+        add_scenarios(rng, c)
         out.append(c)
     return out[:max(n, 1)]
+
+
+def add_scenarios(rng, case):
+    """history-dependent scenarios on top of a case (the model sees only the final rows):
+    overwrite - the output paths already hold an earlier MAF written by the library, and the second write of the
+                round trip goes to the same path again;
+    stale     - [[row, column, earlier text, how]]: the record is first built with the earlier text in that cell and
+                rendered (str(record)), then the cell is edited in place to its final text ("value": assign
+                column.value; "replace": record[name] = a new column) before it is handed to the writer"""
+    if rng.random() < 0.3:
+        case["overwrite"] = True
+    if case["rows"] and rng.random() < 0.3:
+        names = case_names(case)
+        cols = SP.layout(case["layout"])["columns"] if case["layout"] else None
+        stale = []
+        for _ in range(rng.choice([1, 1, 2, 3])):
+            i = rng.randrange(len(case["rows"]))
+            if len(case["rows"][i]) != len(names):
+                continue
+            j = rng.randrange(len(names))
+            if names.count(names[j]) != 1:
+                continue
+            old = G.valid_text(rng, cols[j][1]) if cols else rng.choice(PLAIN_TEXTS)
+            if any(ch in old for ch in "\t\r\n") or any(e[0] == i and e[1] == j for e in stale):
+                continue
+            stale.append([i, j, old, rng.choice(["value", "value", "replace"])])
+        if stale:
+            case["stale"] = stale
 
 
 def _typed_rows():
@@ -349,6 +380,16 @@ def corpus():
         {"stream": "corpus", "hlines": ["#version gdc-1.0.0", "#sort.order Coordinate", "#contigs 1,2,10,X",
                                         "#center  a  b  "],
          "mode": "Strict", "layout": "gdc-1.0.0", "names": None, "rows": _typed_rows()},
+        # a path that already holds an earlier MAF is overwritten, not appended to (plain and .gz)
+        {"stream": "corpus", "hlines": ["#version gdc-1.0.0", "#k v"], "mode": "Strict", "layout": "gdc-1.0.0",
+         "names": None, "rows": _typed_rows()[:2], "overwrite": True},
+        {"stream": "corpus", "hlines": ["#k v"], "mode": "Silent", "layout": None, "names": ["a", "b"],
+         "rows": [["1", ""]], "overwrite": True},
+        # a record rendered once and then edited in place is written as it is when handed to the writer
+        {"stream": "corpus", "hlines": ["#version gdc-1.0.0"], "mode": "Strict", "layout": "gdc-1.0.0", "names": None,
+         "rows": _typed_rows()[:2], "stale": [[0, 0, "KRAS", "value"], [1, 5, "3", "replace"], [1, 13, "rs1;rs2", "value"]]},
+        {"stream": "corpus", "hlines": [], "mode": "Silent", "layout": None, "names": ["a", "b"],
+         "rows": [["new", ""], ["x", "y"]], "stale": [[0, 0, "old", "value"], [1, 1, "", "replace"]]},
         # known finding: scheme-less column names containing a separator cannot be carried by the column line
         {"stream": "corpus", "hlines": [], "mode": "Silent", "layout": None, "names": ["a\tb", "c"], "rows": [["1", "2"]]},
         # known finding: a one-element list holding the null member renders '' and comes back as the empty list
@@ -357,10 +398,25 @@ def corpus():
     ]
 
 
+def _restale(case, drop_row=None, drop_col=None):
+    out = []
+    for (i, j, old, how) in case.get("stale", []):
+        if i == drop_row or j == drop_col:
+            continue
+        out.append([i - (1 if drop_row is not None and i > drop_row else 0),
+                    j - (1 if drop_col is not None and j > drop_col else 0), old, how])
+    return out
+
+
 def shrink(case):
+    if case.get("overwrite"):
+        yield dict(case, overwrite=False)
+    st = case.get("stale", [])
+    for k in range(len(st)):
+        yield dict(case, stale=st[:k] + st[k + 1:])
     rows = case["rows"]
     for i in range(len(rows)):
-        yield dict(case, rows=rows[:i] + rows[i + 1:])
+        yield dict(case, rows=rows[:i] + rows[i + 1:], stale=_restale(case, drop_row=i))
     hl = case["hlines"]
     for i in range(len(hl)):
         yield dict(case, hlines=hl[:i] + hl[i + 1:])
@@ -368,7 +424,8 @@ def shrink(case):
         names = case["names"]
         if len(names) > 1:
             for j in range(len(names)):
-                yield dict(case, names=names[:j] + names[j + 1:], rows=[r[:j] + r[j + 1:] for r in rows])
+                yield dict(case, names=names[:j] + names[j + 1:], rows=[r[:j] + r[j + 1:] for r in rows],
+                           stale=_restale(case, drop_col=j))
         for i, r in enumerate(rows):
             for j, f in enumerate(r):
                 if f not in ("", "x"):
@@ -409,8 +466,38 @@ def _build_inputs(case):
     from maflib.header import MafHeader
     from maflib.record import MafRecord
     h = MafHeader.from_lines(list(case["hlines"]), validation_stringency=R.py_mode("Silent"))
-    recs = [MafRecord.from_line(validation_stringency=R.py_mode("Silent"), **R._recspec_args(s)) for s in specs_of(case)]
+    specs = specs_of(case)
+    recs = [MafRecord.from_line(validation_stringency=R.py_mode("Silent"), **R._recspec_args(s)) for s in specs]
+    names = case_names(case)
+    stale = [e for e in case.get("stale", []) if e[0] < len(case["rows"]) and e[1] < len(names)
+             and len(case["rows"][e[0]]) == len(names)]
+    for i in sorted({e[0] for e in stale}):
+        edits = [e for e in stale if e[0] == i]
+        row = list(case["rows"][i])
+        for (_, j, old, _how) in edits:
+            row[j] = old
+        r = MafRecord.from_line(validation_stringency=R.py_mode("Silent"), **R._recspec_args(dict(specs[i], line="\t".join(row))))
+        if r.validation_errors or len(r) != len(names):
+            continue                     # the earlier text does not build: keep the record built from the final row
+        str(r)                           # rendered once before the edit
+        ok = True
+        for (_, j, _old, how) in edits:
+            fresh = recs[i][names[j]] if names[j] in recs[i] else None
+            if fresh is None:
+                ok = False
+                break
+            if how == "replace":
+                r[names[j]] = type(fresh)(key=names[j], value=fresh.value, column_index=j)
+            else:
+                r[names[j]].value = fresh.value
+        if ok:
+            recs[i] = r
     return h, recs
+
+
+def _column_text(r):
+    """the record's line from its columns, not from MafRecord.__str__"""
+    return "\t".join(str(c) for c in r.values())
 
 
 def _write(channel, path, header, recs, mode, cap):
@@ -496,9 +583,17 @@ def _channel(case, channel, wd):
             "parse_errs": [R.c_errs(r.validation_errors) for r in recs]}
     for r in recs:
         try:
-            orig["texts"].append(str(r))
+            orig["texts"].append(_column_text(r))
         except Exception:  # noqa
             orig["texts"].append(None)
+    if case.get("overwrite") and channel != "handle":
+        p2 = p1                                        # the second write goes to the same path again
+        try:                                           # an earlier MAF at the same path
+            h0, recs0 = _build_inputs(dict(case, stale=[]))
+            with R.LogCapture() as cap0:
+                _write(channel, p1, h0, recs0[:1], "Silent", cap0)
+        except Exception:  # noqa
+            pass
     with R.LogCapture() as cap:
         first, text = _write(channel, p1, h, recs, mode, cap)
         res = {"first": first, "text": text, "read": None, "second": None, "values": None}
